@@ -1144,7 +1144,7 @@ Lemma body_step_stmt : forall lines i line st cp, classify line = KStmt ->
    let (complete_code, consumed) := extract_multiline_expression lines i code in
    if py_stmt_ok pp complete_code
    then POk (set_current st (with_execute cp (TPyStmt complete_code)), i + consumed)
-   else dsyn "stmt:python-syntax" i).
+   else dsyn "stmt:python-syntax" (i + py_stmt_errline pp complete_code)).
 Proof. intros lines i line st cp H. chain H. reflexivity. Qed.
 
 Lemma body_step_jump : forall lines i line st cp, classify line = KJump ->
@@ -3532,7 +3532,7 @@ Proof.
   rewrite clean_app in Hc. apply andb_prop in Hc. tauto.
 Qed.
 
-Lemma py_statement_single : forall lines i c, stmt_ok (mkPyparse (fun _ => true) (fun _ => None)) c = true ->
+Lemma py_statement_single : forall lines i c, stmt_ok (mkPyparse (fun _ => true) (fun _ => None) (fun _ => 0)) c = true ->
   clean c = true ->
   PB.py_statement rlf lines i c = (c, 1).
 Proof.
